@@ -11,7 +11,7 @@ GEN_ONE_CLOSURE = ('N9', r'unwrap_or_else\(Generation::one\)', 'unwrap_or_else(|
 def build():
     u = Unit('alloc',
              prelude=['prelude/std_nonzero.rs', 'prelude/std_atomic.rs', 'prelude/hibitset.rs', 'prelude/std_iter.rs'],
-             spec=['alloc/spec.rs', 'alloc/spec_merge.rs'],
+             spec=['alloc/spec.rs', 'alloc/spec_merge.rs', 'alloc/spec_trace.rs'],
              files=[F])
     u.struct(F, ['type Index'])
     u.struct(F, ['struct Generation'], derive=DER)
